@@ -142,16 +142,19 @@ package container
 
 // eACL changes must not touch system roles
 //@ ghost field sawSystemRole(x int) bool
+//@ ghost pred roleExamined(t eacl.Target) bool
 //@ callrule eacl_target_role_fact in validateEACL
 //@   property C37
 //@   callee *).Role
 //@   assigns sawSystemRole
 //@   defines sawSystemRole(0) == (old(sawSystemRole(0)) || result == eacl.RoleSystem)
+//@   defines roleExamined(self)
 //@ func validateEACL
 //@   property C37
 //@   valid !sawSystemRole(0)
 //@   loop 1 invariant !sawSystemRole(0)
 //@   loop 2 invariant !sawSystemRole(0)
+//@   loop 2 iteration [every_target_role_examined] roleExamined(target)
 //@   loop 3 invariant !sawSystemRole(0)
 //@   ensures [no_system_role_target] err == nil ==> !sawSystemRole(0)
 //@   defines err == nil ==> eaclTableValidated()
